@@ -916,7 +916,13 @@ func getEventTime(etHeader string) time.Time {
 		eventTime, _ = time.Parse(time.RFC3339Nano, etHeader)
 		if eventTime.IsZero() {
 			// the default didn't catch it, let's try a few other things
-			// is it all numeric? then try unix epoch times
+			// is it all decimal digits? then it's a unix epoch time whose first
+			// ten digits are seconds and whose remaining digits are a fraction of
+			// a second; parse it with integer arithmetic so that no precision is
+			// lost and 19-digit nanosecond values beyond MaxInt64 still work
+			if sec, nsec, ok := parseDigitsEpoch(etHeader); ok {
+				return time.Unix(sec, nsec).UTC()
+			}
 			epochInt, err := strconv.ParseInt(etHeader, 0, 64)
 			if err == nil {
 				// it might be seconds or it might be milliseconds! Who can know!
@@ -943,6 +949,39 @@ func getEventTime(etHeader string) time.Time {
 		}
 	}
 	return eventTime.UTC()
+}
+
+// parseDigitsEpoch interprets a string of at least ten decimal digits as a unix
+// epoch: the first ten digits are seconds, the rest is a decimal fraction of a
+// second (13 digits = milliseconds, 16 = microseconds, 19 = nanoseconds). Digits
+// beyond nanosecond resolution are dropped.
+func parseDigitsEpoch(s string) (sec int64, nsec int64, ok bool) {
+	if len(s) < 10 {
+		return 0, 0, false
+	}
+	for i := 0; i < len(s); i++ {
+		if s[i] < '0' || s[i] > '9' {
+			return 0, 0, false
+		}
+	}
+	sec, err := strconv.ParseInt(s[:10], 10, 64)
+	if err != nil {
+		return 0, 0, false
+	}
+	frac := s[10:]
+	if len(frac) > 9 {
+		frac = frac[:9]
+	}
+	if frac != "" {
+		nsec, err = strconv.ParseInt(frac, 10, 64)
+		if err != nil {
+			return 0, 0, false
+		}
+		for i := len(frac); i < 9; i++ {
+			nsec *= 10
+		}
+	}
+	return sec, nsec, true
 }
 
 func makeDecoders(concurrency int) (*zstd.Decoder, error) {
